@@ -376,3 +376,39 @@ func evalStoreVal(r *core.Run, id, fnName, typeDotField string, allowed []string
 		r.Undecide(id, core.Key(id, fnName, "store "+typeDotField, "sites"), r.P.FuncPos(fn), "vacuous: no store to "+typeDotField+" found in "+fnName)
 	}
 }
+
+// evalGuardBranch: the clauses apply to those state-changing effects of fn that lie in the branch
+// established by `when` (every path to them passes `when`).
+func evalGuardBranch(r *core.Run, id, fnName string, when guard.Atom, branch string, clauses []clause) {
+	fn := r.Func(id, fnName)
+	if fn == nil {
+		return
+	}
+	ck := &guard.Checker{P: r.P, Fn: fn, Res: r.Resolver(fn)}
+	n := 0
+	for _, s := range selectEffects(r, fn, effSel{AllWrites: true}) {
+		if ok, _ := ck.MustPass(s.Ins.Block(), []guard.Atom{when}); !ok {
+			continue
+		}
+		n++
+		for _, c := range clauses {
+			key := core.Key(id, fnName, branch+" branch: "+s.Slot, c.Name)
+			ok, w := ck.MustPass(s.Ins.Block(), c.Atoms)
+			var ds []string
+			for _, a := range c.Atoms {
+				ds = append(ds, a.Desc)
+			}
+			req := strings.Join(ds, "  OR  ")
+			if ok {
+				r.Discharge(id, key, r.P.Pos(s.Ins.Pos()), "every path to this effect passes: "+req)
+			} else if len(w) == 1 && w[0] == guard.StateBound {
+				r.Undecide(id, key, r.P.Pos(s.Ins.Pos()), "abstract-state bound exceeded")
+			} else {
+				r.Violate(id, key, r.P.Pos(s.Ins.Pos()), fmt.Sprintf("%s (%s branch) reaches `%s` on a path that does not establish %s: required one of: %s", fnName, branch, s.Slot, c.Name, req), append([]string{"bypass path (branch decisions):"}, w...)...)
+			}
+		}
+	}
+	if n == 0 {
+		r.Undecide(id, core.Key(id, fnName, branch+" branch", "effects"), r.P.FuncPos(fn), "vacuous: no state-changing effect found under "+when.Desc)
+	}
+}
